@@ -1,6 +1,7 @@
 """C01 -- node tree is a lossless, exactly positioned cover of the source."""
 from .. import soups, spans, px, contexts, monitor
-from ..contexts import EXTRA_TOKENS
+from ..contexts import EXTRA_TOKENS, OPTIONS_TOKENS
+from ..alphabets import LEGACY
 from ..alphabets import SIG, SIG_SMALL, EVERYTYPE_TOKENS
 from ..engine import exc_key, exc_detail, ddmin, hyp_run
 from ..treedump import walk, kind
@@ -47,6 +48,8 @@ def plan(tier, seed):
         shards.append(('soup', 'every', 'EVERY', LE, k))
     for k in range(NSHARDS):
         shards.append(('soup', 'extra', 'EXTRA', 3 if tier == 'quick' else 4, k))
+        shards.append(('soup', 'options', 'OPTIONS', 3 if tier == 'quick' else 4, k))
+        shards.append(('soup', 'default', 'LEGACY', 3 if tier == 'quick' else 4, k))
     if L5:
         for k in range(NSHARDS):
             shards.append(('soup', 'default', 'SMALL', L5, k))
@@ -65,7 +68,8 @@ def plan(tier, seed):
                                  'comment-at-eof', 'doc:strict-ok']}
 
 
-ALPHAS = {'SIG': SIG, 'EVERY': ALPHA_EVERY, 'SMALL': SIG_SMALL, 'EXTRA': EXTRA_TOKENS}
+ALPHAS = {'SIG': SIG, 'EVERY': ALPHA_EVERY, 'SMALL': SIG_SMALL, 'EXTRA': EXTRA_TOKENS,
+          'OPTIONS': OPTIONS_TOKENS, 'LEGACY': LEGACY}
 
 
 def classify(s, nl, res, case):
